@@ -104,6 +104,10 @@ func newTransfer(tr *Transfer, name string, path string) *Transfer {
 	}
 
 	for rel, action := range tr.Actions {
+		if action == nil {
+			// A JSON null in place of an action means no such action.
+			continue
+		}
 		t.Actions[rel] = &Action{
 			Href:      action.Href,
 			Header:    action.Header,
@@ -119,6 +123,9 @@ func newTransfer(tr *Transfer, name string, path string) *Transfer {
 		t.Links = make(ActionSet)
 
 		for rel, link := range tr.Links {
+			if link == nil {
+				continue
+			}
 			t.Links[rel] = &Action{
 				Href:      link.Href,
 				Header:    link.Header,
